@@ -17,6 +17,8 @@ text, own allocation count):
   first    a copy fails iff a call it makes is scheduled to fail, and stops at the first such call
   attach   add_item_to_object appends the item under the new name (constant bit as asked); when the key copy fails nothing
            has changed and the item is still the caller's (ignoring that result is known finding F60)
+  replace  ReplaceItemInObject replaces the first member answering to the key in place, under that key; when the key copy
+           fails or no member answers nothing in the object changes and the replacement stays with the caller
   lookup   GetObjectItem finds the first member whose name equals the key under ASCII case folding, else NULL
   memory   no sanitizer report
 A failing clause is a VIOLATION with the failing input; a mere model/code difference is reported with no_input=True
@@ -33,9 +35,13 @@ THEOREMS = {
     "first": ["duplicate_stops_at_first_failure", "duplicate_succeeds_when_allocations_do"],
     "lookup": ["get_object_item_first_hit", "get_object_item_ci_none_iff"],
     "attach": ["add_member_attaches_last", "add_member_failure_changes_nothing", "add_member_conserves_blocks"],
+    "replace": ["replace_checked_failure_changes_nothing", "replace_success_in_place", "replace_unchecked_failure_strips_the_name"],
     "memory": ["(memory safety: sanitizer)"],
 }
 ALL_THEOREMS = sorted({t for v in THEOREMS.values() for t in v if not t.startswith("(")})
+
+
+CHECKED = [False]        # does replace_item_in_object inspect its key copy?  observed on the implementation before the scripts are written
 
 
 class Item:
@@ -112,6 +118,10 @@ def key_variants(r, name):
     return [v for v in vs if 0 not in v]
 
 
+def plain(it):
+    return not it.ref and not it.const and all(plain(k) for k in it.kids)
+
+
 def fold(b):
     return bytes(c + 32 if 0x41 <= c <= 0x5A else c for c in b)
 
@@ -142,6 +152,11 @@ def driver_usable(ctx):
         return os.path.getmtime(drv) >= max(os.path.getmtime(p) for p in srcs)
     except OSError:
         return False
+
+
+def probe_checked(binp):
+    rc, o, e = C.sh([binp], inp=b"R 0 0 61 I 64 0 0 0 ~ ~ 1 I 4 0 0 0 ~ 61 0 I 4 0 0 0 ~ ~ 0\n")
+    return o.startswith("FAIL")
 
 
 def judge(op, hl):
@@ -196,6 +211,30 @@ def judge(op, hl):
                 bad.append("attach")
             if int(kv["live"]) != 1000 + (0 if ck else 1) - (1 if owned_old else 0):
                 bad.append("ledger")
+    elif kind == "R":
+        _, fl, key, obj, new = op
+        parts = [x.strip() for x in hl.split("|")]
+        w = parts[0].split()
+        if len(parts) != 3 or not w:
+            return ["memory"]
+        kv = dict(x.split("=") for x in w[1:])
+        j = ref_lookup(False, key, obj.kids)
+        copy_fails = 0 in fl
+        owned_old = new.name is not None and not new.const
+        if copy_fails or j is None:
+            # nothing in the object may change; the replacement stays with the caller
+            if not (w[0] == "FAIL" and parts[1].split() == obj.toks() and parts[2].startswith("orphan")):
+                bad.append("replace")
+        else:
+            rep = Item(new.kind, new.ref, False, new.vint, new.vdbl, new.vstr, key, new.kids)
+            kids = list(obj.kids)
+            old = kids[j]
+            kids[j] = rep
+            exp = Item(obj.kind, obj.ref, obj.const, obj.vint, obj.vdbl, obj.vstr, obj.name, kids)
+            if not (w[0] == "ok" and parts[1].split() == exp.toks() and parts[2] == "consumed"):
+                bad.append("replace")
+            elif int(kv["live"]) != 1000 + 1 - (1 if owned_old else 0) - old.allocs():
+                bad.append("ledger")
     elif kind == "G":
         _, cs, key, it = op
         exp = ref_lookup(cs, key, it.kids)
@@ -209,6 +248,8 @@ def op_line(op):
         return "%s %s %s" % (op[0], ",".join(map(str, op[1])) if op[1] else "-", op[2].text())
     if op[0] == "G":
         return "G %d %s %s" % (int(op[1]), op[2].hex() if op[2] else "-", op[3].text())
+    if op[0] == "R":
+        return "R %s %d %s %s %s" % (",".join(map(str, op[1])) if op[1] else "-", int(CHECKED[0]), op[2].hex() if op[2] else "-", op[3].text(), op[4].text())
     if op[0] == "O":
         return "O %s %d %s %s %s" % (",".join(map(str, op[1])) if op[1] else "-", int(op[2]), op[3].hex() if op[3] else "-", op[4].text(), op[5].text())
     return "A %d %s" % (op[1], op[2].text())
@@ -222,6 +263,8 @@ def run_cjsontree_tie(ctx, out):
     have_model = driver_usable(ctx)
     if not have_model:
         out.notes.append("cjsontree: model driver not available or stale (Lean build failed): property clauses are evaluated on the implementation only")
+    CHECKED[0] = probe_checked(binp)
+    cov["cjsontree_replace_key_copy_checked_in_source"] = CHECKED[0]
     r = C.rng("cjsontree")
     items = directed_items()
     n_rand = 1200 if thorough else 300
@@ -258,6 +301,14 @@ def run_cjsontree_tie(ctx, out):
                 for ck in (False, True):
                     for fl in ((), (0,), (1,)):
                         ops.append(("O", fl, ck, key, it, new))
+        if it.kind == 64 and not it.ref and all(plain(k) for k in it.kids):
+            for _ in range(2):
+                new = rand_item(r, 1, True)
+                for key in sorted({r.choice(NAMES)} | {(k.name or b"x").swapcase() for k in it.kids[:3]}):
+                    if 0 in key:
+                        continue
+                    for fl in ((), (0,), (1,)):
+                        ops.append(("R", fl, key, it, new))
         for idx in (-1, 0, len(it.kids) - 1, len(it.kids), len(it.kids) + 1):
             ops.append(("A", idx, it))
     text = "\n".join(op_line(o) for o in ops) + "\n"
